@@ -28,7 +28,7 @@ PATHS = ["text", "code_inline", "code_block", "fence.content", "fence.info", "li
 def floors(tier):
     f = {"renders": 100000 if tier == "quick" else 2000000, "input_has_meta": 50000, "tag.a": 5000, "tag.img": 5000, "tag.code": 5000,
          "attr.a.title": 1000, "attr.img.alt": 5000, "attr.code.class": 1000, "attr.ol.start": 500, "attr.th.style": 200,
-         "escaped_in_text": 20000}
+         "escaped_in_text": 20000, "wl.delimiter_words": 400000}
     for p in PATHS:
         f["meta_via." + p] = 300
     return f
@@ -157,6 +157,14 @@ def run(ctx):
             if ctx.mine(i * 2 + size) or not ctx.quick:
                 ctx.count("wl.path_families")
                 check_case(ctx, {"conf": conf, "src": F.build(fam, size)}, minimize=False)
+    # every sequence of up to 5 words carrying two kinds of delimiter runs: tags must never cross in the output
+    for pi, kinds in enumerate(gen.DELIM_KIND_PAIRS):
+        deep = True
+        for di, d in enumerate(gen.delimiter_docs(kinds, 5 if deep else 4)):
+            if not ctx.mine(di + pi):
+                continue
+            ctx.count("wl.delimiter_words")
+            check_case(ctx, {"conf": {"preset": "js-default"} if di % 2 else {"preset": "commonmark", "options": {"html": False}, "enable": ["strikethrough"]}, "src": d + "\n"}, minimize=False)
     from vf import limits
     for i, (name, src) in enumerate(limits.docs(big=True)):
         if ctx.mine(i):
